@@ -136,10 +136,18 @@ def corrupt_statement(text, v):
         return text[:toks[0][1]] if len(toks) > 1 else None            # only the first token (the keyword) is left
     if v == 13:
         return text[:toks[1][1]] if len(toks) > 2 else None            # only the first two tokens are left
+    if v in (14, 15, 16):
+        # a whole innermost parenthesised group is lost (v=14: the last one, v=15: the first one), or only its content (v=16)
+        import re as _re
+        groups = [m for m in _re.finditer(r"\([^()']*\)", text)]
+        if not groups:
+            return None
+        m = groups[-1] if v != 15 else groups[0]
+        return text[:m.start()] + ("()" if v == 16 else "") + text[m.end():]
     return None
 
 
-NCORRUPT = 14
+NCORRUPT = 17
 
 
 def systematic_jobs(seed, std, nprog):
@@ -262,16 +270,16 @@ def run(ctx):
     nsys = len(jobs) - nrand
     for k, src in enumerate(kwnames.exhaustive(ctx.seed) + kwnames.sources(rng, ctx.n(500, 40000))):
         jobs.append((("f2003", "f2008")[k % 2], src, k % 3 == 0))
-    cat = catalogue.BODIES if not ctx.quick else catalogue.BODIES[ctx.seed % 2::2]
+    cat = catalogue.BODIES
     for k, b in enumerate(cat):
-        std = ("f2003", "f2008")[k % 2]
         w = catalogue.WRAPS[k % len(catalogue.WRAPS)]
-        jobs.append((std, w % b, False))
         first, _, rest = b.partition("\n")
-        for v in range(NCORRUPT):
-            c = corrupt_statement(first, v)
-            if c is not None and c != first:
-                jobs.append((std, w % (c + ("\n" + rest if rest else "")), False))
+        for std in ("f2003", "f2008"):          # both: the two standards have classes of their own for some statements
+            jobs.append((std, w % b, False))
+            for v in range(NCORRUPT):
+                c = corrupt_statement(first, v)
+                if c is not None and c != first:
+                    jobs.append((std, w % (c + ("\n" + rest if rest else "")), False))
     res = pool.pmap(run_one, jobs, chunksize=20)
     failures = []
     hist = {}
